@@ -38,10 +38,8 @@ def gen(tier, rng):
         mask = rng.choice(["none", "none", "true", "false", "random", "random", "random", "alltrue", "first"])
         nan = op in ("nansum", "nanmean") and rng.random() < 0.5
         ignores = rng.random() < 0.3
-        if nan and ignores:
-            # whether NaN data "contribute" when the mask is ignored is not settled by the property text
-            # (NaN never enters a nansum / nanmean): not generated
-            ignores = False
+        # whether NaN data "contribute" when the mask is ignored is not settled by the property text (a NaN never enters
+        # a nansum / nanmean): both readings are accepted by the oracle, any mixture of them is not
         spy = rng.random() < 0.1
         seedk = rng.randrange(10 ** 6)
         key = f"{shape}|{bins}|{op}|{kind}|{mask}|{nan}|{ignores}|{spy}|{seedk % 5}"
@@ -143,7 +141,17 @@ def run(case):
                     if "mean" in case["op"]:
                         e = e / max(1, int(c.sum())) ** 2
                 g = s2[j]
-                if not np.isclose(g, e, rtol=1e-9, atol=1e-12):
+                ok = np.isclose(g, e, rtol=1e-9, atol=1e-12)
+                if not ok and nanop and case["ignores"]:
+                    # second reading: with the mask ignored the NaN members contribute their uncertainty and their count
+                    e2 = np.sum(s)
+                    if "mean" in case["op"]:
+                        e2 = e2 / max(1, len(s)) ** 2
+                    ok = np.isclose(g, e2, rtol=1e-9, atol=1e-12)
+                    if not ok:
+                        why.append(f"output {j}: propagated variance {g!r} is neither {e!r} (NaN members excluded) nor {e2!r} (NaN members counted)")
+                        break
+                elif not ok:
                     why.append(f"output {j}: propagated variance {g!r}, textbook combination of its block gives {e!r}")
                     break
     if case["spy"] and "data" in seen and not why:
